@@ -248,15 +248,23 @@ func c12stepCases(rng *sx.Rng, n int) {
 		d := g.signableStep()
 		d.set("key", dStr("k{{matrix}}"))
 		d.set("label", dStr(sx.Pick(rng, tok)))
-		d.set("unknown", dMap(dkv{"n{{matrix.os}}", dList(dStr(sx.Pick(rng, tok)), dInt(1))}))
+		unknownKey := "n{{matrix.os}}"
 		d.set("cache", dStr("c{{matrix}}"))
 		var perm map[string]string
 		switch rng.Intn(3) {
 		case 0: // anonymous dimension
+			if rng.Chance(85) {
+				unknownKey = "n{{matrix}}" // else: a token of a dimension the permutation lacks, the call must fail
+			}
 			// plugins written without a config (string form / null config) whose source carries a token
 			d.set("plugins", dList(dStr("tool-{{matrix}}#v1"), dMap(dkv{"other-{{ matrix }}", dNull()}), dMap(dkv{"third#{{matrix}}", dMap(dkv{"k", dStr("{{matrix}}")})})))
-			d.set("matrix", dMap(dkv{"setup", dList(dStr("a"), dStr("{{matrix}}"))}, dkv{"adjustments", dList(dMap(dkv{"with", dStr("extra")}, dkv{"skip", sx.Pick(rng, []*dv{dBool(false), dBool(true), dStr("why")})}))}))
-			perm = map[string]string{"": sx.Pick(rng, []string{"a", "{{matrix}}", "extra", "zzz"})}
+			// key chains in Go maps: with the token-shaped value {{matrix}}-b the key a-{{matrix}} becomes
+			// a-{{matrix}}-b, which is the OLD name of its sibling (single pass: both entries survive)
+			d.set("chain", dMap(dkv{"a-{{matrix}}", dInt(1)}, dkv{"a-{{matrix}}-b", dInt(2)}, dkv{"zz{{matrix}}", dStr("v{{matrix}}")}))
+			d.set("a-{{matrix}}", dStr("first"))
+			d.set("a-{{matrix}}-b", dStr("second"))
+			d.set("matrix", dMap(dkv{"setup", dList(dStr("a"), dStr("{{matrix}}"), dStr("{{matrix}}-b"))}, dkv{"adjustments", dList(dMap(dkv{"with", dStr("extra")}, dkv{"skip", sx.Pick(rng, []*dv{dBool(false), dBool(true), dStr("why")})}))}))
+			perm = map[string]string{"": sx.Pick(rng, []string{"a", "{{matrix}}", "{{matrix}}-b", "{{matrix}}-b", "extra", "zzz"})}
 		case 1:
 			d.set("plugins", dList(dStr("tool-{{matrix.os}}#v1"), dMap(dkv{"other-{{matrix.arch}}", dNull()})))
 			d.set("matrix", dMap(dkv{"setup", dMap(dkv{"os", dList(dStr("linux"), dStr("mac"))}, dkv{"arch", dList(dStr("x"), dStr("y"))})},
@@ -272,6 +280,7 @@ func c12stepCases(rng *sx.Rng, n int) {
 				perm["os"] = "linux"
 			}
 		}
+		d.set("unknown", dMap(dkv{unknownKey, dList(dStr(sx.Pick(rng, tok)), dInt(1))}))
 		cs, text, err := stepFromDoc(d)
 		if err != nil {
 			continue
@@ -286,6 +295,10 @@ func c12stepCases(rng *sx.Rng, n int) {
 		}
 		c := sx.L(ds, pl)
 		before, _ := json.Marshal(cs)
+		beforeRem := map[string]bool{}
+		for k := range cs.RemainingFields {
+			beforeRem[k] = true
+		}
 		ierr := cs.InterpolateMatrixPermutation(pipeline.MatrixPermutation(perm))
 		after, _ := json.Marshal(cs)
 		var obs sx.S = sx.L(sx.A("err"))
@@ -305,6 +318,35 @@ func c12stepCases(rng *sx.Rng, n int) {
 			for _, v := range perm {
 				if strings.Contains(v, "{{") {
 					tokenFree = false
+				}
+			}
+			// unknown fields: each key is replaced in a single pass; when the new names are pairwise distinct no
+			// field may be lost or invented
+			if len(perm) > 0 {
+				wantKeys := map[string]bool{}
+				distinct := true
+				for k := range beforeRem {
+					nk, _ := c12ref(perm, k)
+					if wantKeys[nk] {
+						distinct = false
+					}
+					wantKeys[nk] = true
+				}
+				if distinct {
+					for k := range wantKeys {
+						if _, ok := cs.RemainingFields[k]; !ok {
+							oracleFail("C12", "unknown-field-lost", c, fmt.Sprintf("unknown field %q is missing after interpolation", k))
+							distinct = false
+							break
+						}
+					}
+					if distinct && len(cs.RemainingFields) != len(wantKeys) {
+						oracleFail("C12", "unknown-field-lost", c, "the set of unknown fields changed size")
+						distinct = false
+					}
+					if !distinct {
+						continue
+					}
 				}
 			}
 			if len(perm) > 0 && tokenFree {
